@@ -255,8 +255,9 @@ func (sc *Scenario) submit(cb string, sub Sub) {
 		if sub.Kind == "access" {
 			subj = "access." + rid
 		}
-		if n, _ := sc.conn.Deliver(subj, "inbox."+cb, []byte(`{"query":"cb=`+cb+`"}`)); n > 0 {
-			sc.tr.Log("delivered", cb)
+		conn := sc.conn
+		if n, _ := conn.Deliver(subj, "inbox."+cb, []byte(`{"query":"cb=`+cb+`"}`)); n > 0 {
+			sc.tr.Log("delivered", cb, fmt.Sprintf("%p", conn))
 		}
 	case "nomatch":
 		// resource ids no handler matches: an unknown name, and names that merely start with the service name
